@@ -107,7 +107,58 @@ int main()
     U.mfn("x_prettyNumber", "real", {"printed_mantissa_is_between_1_and_1000": lambda P, RET, Q, G: mant_ok(P, RET, Q, G, 0, 20), "suffix_multiplies_the_mantissa_back_to_the_input": lambda P, RET, Q, G: scale_ok(P, RET, Q, G, 0, 20),
                                      "prints_exactly_once_and_small_numbers_unscaled": plain_ok},
           requires=lambda P: [P[0] >= 0, P[0] < z3.RealVal(2) ** 64], models=MODELS, exact_f32=True, replay_native=PRETTY_REPLAY % dict(param="s", fn="prettyNumber", arg="(size_t)v"))
-    return [U]
+    S = Unit("c18_strings", "units/c18_strings.cpp", opts=dict(tracked_vec=True, tracked_str=True))
+    MAXS = "1099511627776ul"
+    def SINV(v):
+        return "(%(v)s.n <= %(v)s.cap && %(v)s.cap <= %(M)s && ((%(v)s.cap == 0 && %(v)s.b == 0) || (%(v)s.cap > 0 && __CPROVER_rw_ok(%(v)s.b, %(v)s.cap) && __CPROVER_POINTER_OFFSET(%(v)s.b) == 0)))" % dict(v=v, M=MAXS)
+    def sharness(o, cap="nondet_ulong()"):
+        return """
+  unsigned long in_n_%(o)s = nondet_ulong(), in_cap_%(o)s = %(cap)s; __CPROVER_assume(in_n_%(o)s <= in_cap_%(o)s && in_cap_%(o)s <= %(M)s);
+  %(o)s.b = in_cap_%(o)s ? (char *)verif_malloc(in_cap_%(o)s) : 0; %(o)s.n = in_n_%(o)s; %(o)s.cap = in_cap_%(o)s;
+""" % dict(o=o, M=MAXS, cap=cap)
+    def chars(o, tag):
+        return "".join("  char in_%s%d = nondet_char(); if (%d < in_cap_%s) %s.b[%d] = in_%s%d;\n" % (tag, k, k, o, o, k, tag, k) for k in range(4))
+    PREFIX_REPLAY = """
+int main()
+{
+  unsigned long na = IN_in_n_o_%(a)s, nb = IN_in_n_o_%(b)s;
+  const char ca[] = {IN_in_a0, IN_in_a1, IN_in_a2, IN_in_a3}, cb[] = {IN_in_b0, IN_in_b1, IN_in_b2, IN_in_b3};
+  if (na > 4 || nb > 4) { printf("REPLAY RESULT: not reproduced (the counterexample's strings are longer than the 4 characters the harness exposes)\\n"); return 0; }
+  std::string a(ca, na), b(cb, nb);
+  bool got = rkcommon::utility::beginsWith(a, b);
+  bool want = nb <= na && a.compare(0, nb, b) == 0;
+  std::string m = rkcommon::utility::longestBeginningMatch(a, b);
+  unsigned long k = 0; while (k < na && k < nb && a[k] == b[k]) k++;
+  bool ok = got == want && m == a.substr(0, k);
+  printf("beginsWith(len %%lu, len %%lu) = %%d, prefix relation says %%d; longestBeginningMatch has length %%lu, common prefix %%lu\\n", na, nb, (int)got, (int)want, (unsigned long)m.size(), k);
+  printf("REPLAY RESULT: %%s\\n", ok ? "not reproduced" : "violation reproduced on real code");
+  return ok ? 0 : 1;
+}
+"""
+    pre = sharness("o_@0") + sharness("o_@1") + chars("o_@0", "a") + chars("o_@1", "b") + "  verif_gi = nondet_ulong(); verif_gj = nondet_ulong(); verif_hi = nondet_ulong(); verif_hj = nondet_ulong(); verif_mm = nondet_ulong();\n"
+    pre_short = sharness("o_@0", "4ul") + sharness("o_@1", "4ul") + chars("o_@0", "a") + chars("o_@1", "b") + pre[pre.index("  verif_gi"):]
+    A, Bs = "(*$0)", "(*$1)"
+    S.fn("s_longestBeginningMatch", pre_call=pre, requires=[SINV(A), SINV(Bs)], noalias=True, assigns=["verif_mm"], apply_loops=True, replay_native=PREFIX_REPLAY % dict(a="first", b="second"), ensures={
+        "result_owns_a_fresh_block": "(RET.cap == 0 && RET.b == 0) || (RET.cap > 0 && __CPROVER_is_fresh(RET.b, RET.cap))",
+        "result_is_a_common_prefix": "RET.n <= RET.cap && RET.cap <= %s && RET.n <= $0->n && RET.n <= $1->n && IMP(verif_gi < RET.n, RET.b[verif_gi] == $0->b[verif_gi] && $0->b[verif_gi] == $1->b[verif_gi])" % MAXS,
+        "result_is_the_longest_common_prefix": "RET.n == $0->n || RET.n == $1->n || $0->b[RET.n] != $1->b[RET.n]",
+        "ghost_witness_is_the_first_difference": "verif_mm == RET.n"})
+    S.fn("s_beginsWith", pre_call=pre, requires=[SINV(A), SINV(Bs)], noalias=True, assigns=["verif_mm"], apply_loops="auto", replay_native=PREFIX_REPLAY % dict(a="inputString", b="startsWithString"), ensures={
+        "true_only_for_a_prefix": "IMP(RET, $1->n <= $0->n && IMP(verif_gi < $1->n, $0->b[verif_gi] == $1->b[verif_gi]))",
+        "a_prefix_is_always_recognised": "IMP($1->n <= $0->n && verif_hi == verif_mm && IMP(verif_hi < $1->n, $0->b[verif_hi] == $1->b[verif_hi]), RET)"})
+    def lcp(k):
+        return "0ul" if k == 4 else "((%d < $0->n && %d < $1->n && $0->b[%d] == $1->b[%d]) ? 1ul + %s : 0ul)" % (k, k, k, k, lcp(k + 1))
+    # the same contracts on strings of at most 4 fully exposed characters: counterexamples of these variants replay natively
+    S.fn("s_longestBeginningMatch", variant="short", pre_call=pre_short, requires=[SINV(A), SINV(Bs)], noalias=True, assigns=["verif_mm"], unwind=6, replay_native=PREFIX_REPLAY % dict(a="first", b="second"), ensures={
+        "result_owns_a_fresh_block": "(RET.cap == 0 && RET.b == 0) || (RET.cap > 0 && __CPROVER_is_fresh(RET.b, RET.cap))",
+        "result_is_a_common_prefix": "RET.n <= RET.cap && RET.cap <= %s && RET.n <= $0->n && RET.n <= $1->n && IMP(verif_gi < RET.n, RET.b[verif_gi] == $0->b[verif_gi] && $0->b[verif_gi] == $1->b[verif_gi])" % MAXS,
+        "result_is_the_longest_common_prefix": "RET.n == $0->n || RET.n == $1->n || $0->b[RET.n] != $1->b[RET.n]",
+        "exactly_the_length_of_the_common_prefix": "RET.n == " + lcp(0),
+        "ghost_witness_is_the_first_difference": "verif_mm == RET.n"})
+    S.fn("s_beginsWith", variant="short", pre_call=pre_short, requires=[SINV(A), SINV(Bs)], noalias=True, assigns=["verif_mm"], unwind=6, inline=["s_longestBeginningMatch"], replay_native=PREFIX_REPLAY % dict(a="inputString", b="startsWithString"), ensures={
+        "true_only_for_a_prefix": "IMP(RET, $1->n <= $0->n && IMP(verif_gi < $1->n, $0->b[verif_gi] == $1->b[verif_gi]))",
+        "exactly_the_prefix_relation": "RET == (" + " && ".join(["$1->n <= $0->n"] + ["(%d >= $1->n || $0->b[%d] == $1->b[%d])" % (k, k, k) for k in range(4)]) + ")"})
+    return [U, S]
     reset = "  g_calls = 0; g_kind = 0; g_suffix = 0;\n"
     INR = "(dabs($0) >= 1e-15 && dabs($0) < 1e21)"
     U.fn("x_prettyDouble", pre_call=reset, requires=["g_calls == 0", "__verif_exc == 0"], assigns=GA + ["__verif_exc"], solver=["--sat-solver", "cadical"], timeout=900, ensures={
@@ -117,4 +168,12 @@ int main()
     return [U]
 
 
-META = dict(level="proof", level_text="wip", level_note="wip")
+META = dict(
+    level="other",
+    level_text="PARTIAL coverage of the statement. (1) removeArgs is extracted from /repo and proved by CBMC (function contract + loop contract, any argc): the count drops by howMany, arguments before `where` are untouched and every later argument moves down by howMany in order (ghost positions). (2) prettyDouble and prettyNumber are extracted and decided by the math back end (z3 over the reals, float literals at their exact binary32 values, snprintf as a recording interface model): for every magnitude in [1e-15, 1e21) (prettyNumber: every size_t) the mantissa handed to the formatter lies in [0.95, 1000.05) -- i.e. prints as 1.0 .. 1000.0 -- and mantissa x 10^(suffix) equals the input within 1e-6 relative; plain numbers are printed unscaled. (3) longestBeginningMatch and beginsWith are extracted and proved by CBMC on a value-tracking std::string model for strings of ANY length up to 2^40: the result of longestBeginningMatch is a common prefix (ghost position), is the longest one, and beginsWith is true only for prefixes and true for every prefix; the same two functions are also checked EXACTLY (full prefix relation, exact common-prefix length) for strings of at most 4 characters with bounded unwinding, which yields natively replayable counterexamples.",
+    level_note="NOT covered (unverified): split (both forms), lowerCase/upperCase, tokenize, PseudoURL parsing/getValue/hasParam, every FileName operation, ArgumentList/ArgumentsParser::parseAndRemove: they are built on std::stringstream/getline, find_first_of/substr/rfind and std::vector<std::string>::erase for which this framework has no model. Floating point is treated as real arithmetic in (2) (rounding of the division and of %.1f is not modelled). std::string is a value-tracking MODEL; std::mismatch/std::equal/std::min are reference models; the string range constructor is an assumed contract instantiated at ghost positions. removeArgs is proved under its natural precondition 0 <= where, 0 <= howMany, where + howMany <= ac.",
+    explanation="mixed: CBMC function/loop contracts (removeArgs, prefix helpers), z3 real arithmetic VCs (number formatting), bounded exact variants for replay",
+    assumptions=["snprintf recording interface model", "floating point treated as real arithmetic (prettyDouble/prettyNumber)", "std::string value-tracking model; std::mismatch/std::equal/std::min reference models", "string range constructor: assumed contract at ghost positions", "strings shorter than 2^40", "allocation never fails"],
+    bounded=["s_beginsWith#short, s_longestBeginningMatch#short: strings of at most 4 characters, unwind 6 (exact specification; the unbounded variants carry the proof)"],
+    unverified=["split", "lowerCase/upperCase", "tokenize / PseudoURL", "FileName", "ArgumentList / parseAndRemove", "decimal rendering of %.1f"],
+)
